@@ -348,9 +348,11 @@ def _mk(p):
 
 
 def in_range(x):
-    """log-reliability <= 0 and finite, reliability = exp(.) in (0, 1]"""
+    """log-reliability finite and <= 0, i.e. reliability = exp(.) in (0, 1] as a real number.  exp() of a
+    log-reliability below -745 underflows to 0.0 in binary64 (seen at -2498 after scaling stresses by 3): that is
+    the rounding of a positive number, not a reliability of zero, so it is not tested on the rounded value."""
     x = np.ravel(np.asarray(x, dtype=float))
-    return bool(np.all(np.isfinite(x)) and np.all(x <= 0.0) and np.all(np.exp(x) > 0.0) and np.all(np.exp(x) <= 1.0))
+    return bool(np.all(np.isfinite(x)) and np.all(x <= 0.0) and np.all(np.exp(x) <= 1.0))
 
 
 def pred_rotation(p):
